@@ -151,7 +151,24 @@ pub struct SimLifecycle {
     pub truth: SharedTruth,
     /// Commanders registered in `on_start` (one per registered target lane).
     pub commanders: Arc<Mutex<Vec<swimos::agent::commander::Commander<SimAgent>>>>,
+    /// Ad hoc commands are addressed to a remote host (one channel for all target lanes) instead of locally
+    /// (one channel per target lane).
+    pub remote_host: bool,
+    /// A value that makes the lifecycle handler of a value lane fail (after it has been recorded): the lane keeps
+    /// the value and it must still be published.
+    pub fail_on_multiple_of: i32,
 }
+
+#[derive(Debug)]
+pub struct SimFail;
+
+impl std::fmt::Display for SimFail {
+    fn fmt(&self, f: &mut std::fmt::Formatter<'_>) -> std::fmt::Result {
+        write!(f, "scripted handler failure")
+    }
+}
+
+impl std::error::Error for SimFail {}
 
 impl SimLifecycle {
     fn rec(&self, ev: TruthEv) {
@@ -310,14 +327,20 @@ impl SimLifecycle {
     pub fn val_event(&self, context: Ctx, value: &i32) -> impl EventHandler<SimAgent> {
         let me = self.clone();
         let v = *value;
-        context.effect(move || me.rec(TruthEv::Value { item: "val", value: v }))
+        let m = self.fail_on_multiple_of;
+        // The handler fails for some values, after the lane has taken the value: it must be published all the same.
+        let fail = if m > 0 && v % m == 0 { Some(context.fail::<(), SimFail>(SimFail)) } else { None };
+        context.effect(move || me.rec(TruthEv::Value { item: "val", value: v })).followed_by(fail.discard())
     }
 
     #[on_event(tval)]
     pub fn tval_event(&self, context: Ctx, value: &i32) -> impl EventHandler<SimAgent> {
         let me = self.clone();
         let v = *value;
-        context.effect(move || me.rec(TruthEv::Value { item: "tval", value: v }))
+        let m = self.fail_on_multiple_of;
+        // The handler fails for some values, after the lane has taken the value: it must be published all the same.
+        let fail = if m > 0 && v % m == 0 { Some(context.fail::<(), SimFail>(SimFail)) } else { None };
+        context.effect(move || me.rec(TruthEv::Value { item: "tval", value: v })).followed_by(fail.discard())
     }
 
     #[on_event(vstore)]
@@ -512,7 +535,8 @@ impl SimLifecycle {
                 for i in 0..n {
                     let me = self.clone();
                     let v = start + i;
-                    let addr = swimos_api::address::Address::text(None, "/target", &format!("t{target}"));
+                    let host = if self.remote_host { Some("ws://remote:9001") } else { None };
+                    let addr = swimos_api::address::Address::text(host, "/target", &format!("t{target}"));
                     hs.push(
                         swimos_agent::event_handler::SendCommand::new(addr, v, overwrite)
                             .followed_by(context.effect(move || me.rec(TruthEv::Sent { target, overwrite, value: v })))
